@@ -33,9 +33,14 @@ theorem chan_exit_calls :
     Nsq.Gen.Life.chanExitCalls = ["CompareAndSwapInt32", "Notify", "Close", "Empty", "Delete", "flush", "Close"] := by
   decide
 
-/-- `DeleteExistingChannel`: Channel.Delete() before the unlink from the map, then the ephemeral
-topic's once-only callback -/
-theorem delete_chan_calls : Nsq.Gen.Life.deleteChanCalls = ["Delete", "delete", "Do"] := by decide
+/-- `DeleteExistingChannel`: lookup under the read lock; Channel.Delete() before the unlink; the unlink
+and the count of the channels that are left (`len` **after** `delete`, both inside the write-locked
+section — the count decides the ephemeral topic's once-only delete callback); persist; callback -/
+theorem delete_chan_calls :
+    Nsq.Gen.Life.deleteChanCalls =
+      ["RLock", "RUnlock", "Delete", "Lock", "delete", "len", "Unlock", "Lock", "Unlock", "Do"] ∧
+    Nsq.Gen.Life.deleteChanNum =
+      ["assign numChannels := len(t.channelMap)", "if numChannels == 0 && t.ephemeral"] := by decide
 
 /-- `RemoveClient`: exiting check, removal, once-only ephemeral delete -/
 theorem remove_client_calls : Nsq.Gen.Life.removeClientCalls = ["Exiting", "delete", "Do"] := by decide
